@@ -475,6 +475,18 @@ Section Tokenize.
     if slen leader =? 1 then str_eqb leader other
     else all_decimal (removelast leader) && all_decimal (removelast other) && (last_char leader =? last_char other).
 
+  (* ListItem.read, "unless it's the start of another token": a line that begins a new list item can only be a thematic break instead;
+     the other tokens are asked only about a line without a list marker *)
+  Definition item_interrupt (after : list str) : bool :=
+    match after with
+    | next_line :: _ =>
+      match parse_marker next_line with
+      | Some _ => existsb (fun k => kind_eqb k BK_ThematicBreak) types && thematic_start next_line
+      | None => any_interrupt types BK_List after
+      end
+    | [] => false
+    end.
+
   (* the main loop of ListItem.read: (line buffer, lines consumed, next marker) *)
   Fixpoint item_loop (leader : str) (after : list str) (prepend : Z) (buf_rev : list str) (taken : nat) (newlines : nat)
     : list str * nat * option (Z * Z * str * str) :=
@@ -485,7 +497,7 @@ Section Tokenize.
       match parse_continuation next_line prepend with
       | Some cont => item_loop leader r prepend (cont :: buf_rev) (S taken) (if str_eqb cont [10] then S newlines else O)
       | None =>
-        if any_interrupt types BK_List after then stop_backstep
+        if item_interrupt after then stop_backstep
         else match parse_marker next_line with
              | Some ((_, _, other, _) as mk) =>
                (* a marker of another list type ends the list: the blank lines before it are not the item's *)
